@@ -147,7 +147,7 @@ func VerifHarness_C45_InternalScan() { hInternalScan(3, 2, hScanKinds, false) }
 
 func VerifHarness_C45_InternalScanBounded() { hInternalScan(2, 2, hScanKinds, true) }
 
-func VerifHarness_C45_InternalScan_Thorough() { hInternalScan(4, 3, hScanKinds, true) }
+func VerifHarness_C45_InternalScan_Deep() { hInternalScan(4, 3, hScanKinds, true) }
 
 // the real DB.ScanInternal front end and visitor loop over stub tables
 func VerifHarness_C45_ScanInternalDB() { hInternalScanVia(2, 2, hScanKinds, false, true) }
